@@ -663,6 +663,45 @@ func genFresh(r *hc.Rand, threads, rounds, senders, sends int) Case {
 	return c
 }
 
+// rebinding and identical re-registration: a pipeline is registered, one of its node ids is registered again with another
+// object (or removed and registered again after the pipeline was removed), then the pipeline is registered again EXACTLY as
+// before (same ids, same or another policy).  The sequential specification links the objects registered at the time of the
+// last successful RegisterPipeline; the final snapshot, the probe deliveries and the results go into the linearization search.
+func genRebind(r *hc.Rand, threads int, senders, sends int) Case {
+	g := &gen{r: r, tap: 100, fobj: 50}
+	c := Case{Gen: "rebind", Senders: senders, Sends: sends, Seed: r.U64()}
+	for id := 1; id <= 4; id++ {
+		c.Setup = append(c.Setup, Op{K: "regnode", ID: id, Obj: id, Ty: nodeTy[id]})
+	}
+	c.Threads = make([][]Op, threads)
+	for ti := 0; ti < threads; ti++ {
+		// each goroutine owns one pipeline key and one tap; the shared node ids 1..4 are rebound by everybody
+		g.tap++
+		tap := g.tap
+		t, p := 1+ti%2, 1+ti
+		ids := append([]int{tap}, menu[r.Intn(len(menu))]...)
+		same := Op{K: "regpipe", Pid: p, Ety: t, IDs: ids}
+		c.Setup = append(c.Setup, Op{K: "regnode", ID: tap, Obj: tap, Ty: 1}, same)
+		var ops []Op
+		for k := 0; k < 2+r.Intn(2); k++ {
+			id := ids[1+r.Intn(len(ids)-1)]
+			g.fobj++
+			switch r.Intn(4) {
+			case 0, 1: // rebind a listed id, then register the pipeline again exactly as it is
+				ops = append(ops, Op{K: "regnode", ID: id, Obj: g.fobj, Ty: nodeTy[id]}, same)
+			case 2: // ... with another policy
+				again := same
+				again.Pol = 1
+				ops = append(ops, Op{K: "regnode", ID: id, Obj: g.fobj, Ty: nodeTy[id]}, again)
+			default: // remove the pipeline, remove and re-register the id, register the pipeline again as it was
+				ops = append(ops, Op{K: "rmpipe", Ety: t, Pid: p}, Op{K: "rmnode", ID: id}, Op{K: "regnode", ID: id, Obj: g.fobj, Ty: nodeTy[id]}, same)
+			}
+		}
+		c.Threads[ti] = ops
+	}
+	return c
+}
+
 type emitter struct {
 	cf      *hc.CaseFile
 	side    *os.File
@@ -730,6 +769,7 @@ func main() {
 	mode := flag.String("mode", "cases", "cases: print case files; race: long histories with readers, no case files")
 	wd := flag.Duration("watchdog", 8*time.Second, "per-history watchdog")
 	ncases := flag.Int("cases", 150, "number of concurrent histories")
+	nrebind := flag.Int("rebind", 0, "number of rebind / identical re-registration histories")
 	nfresh := flag.Int("fresh", 0, "number of fresh-type race histories (first calls for unused event types behind a barrier)")
 	maxThreads := flag.Int("threads", 8, "maximal number of registry goroutines (2..)")
 	budget := flag.Int("ops", 12, "registry calls per case in the concurrent phase (spread over the goroutines)")
@@ -848,6 +888,9 @@ func main() {
 		if len(hangs) >= 2 {
 			break
 		}
+	}
+	for i := 0; i < *nrebind && len(hangs) < 2; i++ {
+		e.emit(genRebind(r.Fork(), 1+i%3, 1, 4))
 	}
 	for i := 0; i < *nfresh && len(hangs) < 2; i++ {
 		e.emit(genFresh(r.Fork(), 2+i%3, 3, 1, 2))
